@@ -260,3 +260,432 @@ Print rt_count_ok.
 
 
 CHECKS = {"C12": check_C12}
+
+
+# ------------------------------------------------------------------------------------------------ C14
+C14_THEOREMS = ["C14_action_table_shape", "C14_unpack_sound", "C14_documented_names", "C14_unknown_rejected", "C14_print_parse",
+                "C14_unpack_order_independent", "C14_operations", "C14_operation_constants", "C14_tags_consistent", "C14_tags_present"]
+
+DOC_ACTIONS = {"kill_thread": 0, "kill_process": 0x80000000, "trap": 0x30000, "errno": 0x50000, "trace": 0x7ff00000,
+               "log": 0x7ffc0000, "allow": 0x7fff0000}
+DOC_OPS = ["Equal", "NotEqual", "GreaterThan", "LessThan", "GreaterOrEqual", "LessOrEqual", "BitsSet", "BitsNotSet"]
+OP_TOKEN = dict(zip(OPS, DOC_OPS))
+
+
+def go_lower(b):
+    """strings.ToLower on a byte string (valid UTF-8 is mapped rune by rune; invalid bytes are kept by Go's ASCII fast
+    path only when the whole string is ASCII - otherwise they become U+FFFD: callers avoid that case)."""
+    if b.isascii():
+        return b.lower()
+    try:
+        # Go maps rune by rune with the simple case mapping: U+0130 -> 'i' (Python's full mapping would give two runes)
+        return "".join("i" if ch == "\u0130" else (ch.lower() if len(ch.lower()) == 1 else ch) for ch in b.decode("utf-8")).encode("utf-8")
+    except UnicodeDecodeError:
+        return None
+
+
+def yaml_of_policy(pol, rng):
+    """Render a policy as the YAML text a user would write (the documented configuration form)."""
+    inv = {v: k for k, v in DOC_ACTIONS.items()}
+
+    def act(a):
+        s = inv[a]
+        r = rng.random()
+        return s.upper() if r < 0.15 else (s.capitalize() if r < 0.3 else s)
+    out = ["seccomp:", "  default_action: %s" % act(pol["default"]), "  syscalls:"]
+    for g in pol["groups"]:
+        out.append("  - action: %s" % act(g["action"]))
+        if g["names"]:
+            out.append("    names:")
+            for n in g["names"]:
+                out.append("    - %s" % n)
+        if g["nwc"]:
+            out.append("    names_with_args:")
+            for w in g["nwc"]:
+                out.append("    - name: %s" % w["name"])
+                out.append("      arguments:")
+                for (a, o, v) in w["conds"]:
+                    op = OP_TOKEN[o]
+                    r = rng.random()
+                    op = op.lower() if r < 0.2 else (op.upper() if r < 0.3 else op)
+                    out.append("      - argument: %d" % a)
+                    out.append("        operation: %s" % op)
+                    out.append("        value: %s" % (str(v) if rng.random() < 0.7 or v >= (1 << 63) else hex(v)))
+    return "\n".join(out) + "\n"
+
+
+def check_C14(ctx, replay=None):
+    rng = random.Random(ctx.seed * 1000003 + 14)
+    gen, ok = setup(ctx, "C14.v", C14_THEOREMS)
+    if not ok:
+        return
+    nbad = 0
+    q = ctx.tier == "quick"
+    # ---- (a) strings offered to the parsers
+    strings = set()
+    for nm in list(DOC_ACTIONS) + ["user_notify", "kill", "killprocess", "permit", "deny", "unknown", "", "allow ", " allow", "allow\n",
+                                   "allow\x00", "a", "allo", "allowx", "errno1", "0", "0x7fff0000", "2147418112", "true", "ALLOW|LOG"]:
+        strings.add(nm.encode())
+        for b in case_spellings(rng, nm, 6 if q else 40) if nm else []:
+            strings.add(b)
+    for nm in DOC_OPS + ["equal", "eq", "==", "Equals", "Bits_Set", "bitsset", "NOTEQUAL", "", "GreaterThan ", "lessthan", "LessOrEqual\t"]:
+        strings.add(nm.encode())
+        for b in case_spellings(rng, nm, 4 if q else 30) if nm else []:
+            strings.add(b)
+    for _ in range(60 if q else 2000):
+        n = rng.randint(1, 12)
+        strings.add(bytes(rng.choice(b"alowLOWkiKItrap_TRAPEqualNotBitsSe ") for _ in range(n)))
+    strings = sorted(s for s in strings if b"\n" not in s or True)
+    if replay and replay.get("input_hex") is not None:
+        strings = [bytes.fromhex(replay["input_hex"])]
+    lines = []
+    for s in strings:
+        lines.append("AU x" + s.hex())
+        lines.append("OU x" + s.hex())
+    values = sorted(set(list(DOC_ACTIONS.values()) + [0x7fc00000, 1, 0x50001, 0x7fff0001, 0xffffffff, 0x80000001] + [rng.getrandbits(32) for _ in range(20)]))
+    for v in values:
+        lines += ["AS %d" % v, "AM %d" % v]
+    for fl in list(range(0, 9)) + [16, 0xffffffff, 0x80000001]:
+        lines += ["FS %d" % fl, "FM %d" % fl]
+    r = ctx.run_harness(["text"], "\n".join(lines) + "\n")
+    obs = [ln.split() for ln in r.stdout.splitlines() if ln.strip()]
+    evaluations = len(obs)
+    au, ou, asv, fsv = [], [], [], []
+    for f in obs:
+        if f[0] == "AU":
+            au.append((unhex(f[1]), f[2], int(f[3]) if len(f) > 3 else None))
+        elif f[0] == "OU":
+            ou.append((unhex(f[1]), f[2], unhex(f[3]) if len(f) > 3 else None))
+        elif f[0] in ("AS", "AM"):
+            asv.append((f[0], int(f[1]), f[2]))
+        elif f[0] in ("FS", "FM"):
+            fsv.append((f[0], int(f[1]), f[2]))
+
+    def bad(what, **kw):
+        nonlocal nbad
+        nbad += 1
+        if nbad <= 4:
+            p = ctx.violation("counterexample", dict(what=what, **kw), True)
+            rewrite_with_replay_cmd(ctx, p)
+    inv = {v: k for k, v in DOC_ACTIONS.items()}
+    for (s, st, val) in au:
+        low = go_lower(s)
+        if st == "PANIC" or st == "ERR_MODIFIED":
+            bad("Action.Unpack %s" % st, input_hex=s.hex())
+        elif low is not None and low.decode("utf-8", "replace") in DOC_ACTIONS:
+            want = DOC_ACTIONS[low.decode()]
+            if st != "OK" or val != want:
+                bad("a documented action name (in some letter case) does not parse to its kernel constant", input=s.decode("utf-8", "replace"),
+                    input_hex=s.hex(), expected=want, actual="%s %s" % (st, val))
+        elif st == "OK":
+            bad("an undocumented name was accepted as an action", input=s.decode("utf-8", "replace"), input_hex=s.hex(), actual=val)
+    lowops = {o.lower(): o for o in DOC_OPS}
+    for (s, st, val) in ou:
+        low = go_lower(s)
+        if st == "PANIC":
+            bad("Operation.Unpack panicked", input_hex=s.hex())
+        elif low is not None and low.decode("utf-8", "replace") in lowops:
+            if st != "OK" or val != lowops[low.decode()].encode():
+                bad("a documented operation name (in some letter case) does not parse to its constant", input_hex=s.hex(), actual="%s %s" % (st, val))
+        elif st == "OK":
+            bad("an undocumented name was accepted as an operation", input_hex=s.hex(), actual=str(val))
+    for (k, v, txt) in asv:
+        if v in inv and txt != "ERR" and unhex(txt) != inv[v].encode():
+            bad("the printed form of a named action is not its documented name", value=v, actual=str(unhex(txt)))
+    # ---- model correspondence inside Coq
+    ncorr = 0
+    if gen:
+        body = CASE_PREAMBLE.replace("From Seccomp Require Import Result Policy Tables Text.", "From Seccomp Require Import Result Policy Tables Text.")
+        body += "Definition au_cases : list (string * option N) := [\n" + ";\n".join(
+            " (%s, %s)" % (coq_str(s), ("Some %d" % val) if st == "OK" else "None") for (s, st, val) in au if go_lower(s) is not None and s.isascii()) + "\n].\n"
+        body += "Definition au_mismatches := Eval vm_compute in filter (fun c => negb (match action_unpack action_names (fst c), snd c with Some a, Some b => a =? b | None, None => true | _, _ => false end)) au_cases.\nPrint au_mismatches.\n"
+        body += "Definition ou_cases : list (string * option string) := [\n" + ";\n".join(
+            " (%s, %s)" % (coq_str(s), ("Some %s" % coq_str(val)) if st == "OK" else "None") for (s, st, val) in ou if s.isascii()) + "\n].\n"
+        body += "Definition ou_mismatches := Eval vm_compute in filter (fun c => negb (match operation_unpack operations (fst c), snd c with Some a, Some b => String.eqb a b | None, None => true | _, _ => false end)) ou_cases.\nPrint ou_mismatches.\n"
+        body += "Definition as_cases : list (N * string) := [\n" + ";\n".join(" (%d, %s)" % (v, coq_str(unhex(t))) for (k, v, t) in asv if t != "ERR") + "\n].\n"
+        body += "Definition as_mismatches := Eval vm_compute in filter (fun c => negb (String.eqb (action_string action_names (fst c)) (snd c))) as_cases.\nPrint as_mismatches.\n"
+        body += "Definition fs_cases : list (N * string) := [\n" + ";\n".join(" (%d, %s)" % (v, coq_str(unhex(t))) for (k, v, t) in fsv if t != "ERR") + "\n].\n"
+        body += "Definition fs_mismatches := Eval vm_compute in filter (fun c => negb (String.eqb (flag_string filter_flag_names (fst c)) (snd c))) fs_cases.\nPrint fs_mismatches.\n"
+        okc, log = coq_eval(ctx, gen, "c14cases", body)
+        if not okc:
+            ctx.broken = (getattr(ctx, "broken", None) or "") + "\ncases file failed: " + log[-1500:]
+        else:
+            for ident in ("au_mismatches", "ou_mismatches", "as_mismatches", "fs_mismatches"):
+                e, v = parse_printed_list_empty(log, ident)
+                if not e:
+                    p = ctx.violation("correspondence", dict(stream="text forms: model vs implementation (%s)" % ident, mismatches=(v or "")[:2000]), False)
+                    rewrite_with_replay_cmd(ctx, p)
+            ncorr = len(au) + len(ou) + len(asv) + len(fsv)
+    # ---- (b) configuration path
+    st = Stream(ctx)
+    consts, arches_tbl = st.load_header()
+    pg = PolicyGen(rng, consts, arches_tbl)
+    npol = 120 if q else 1500
+    plines, mlines, ylines, pols = [], [], [], {}
+    for i in range(npol):
+        kind = rng.choice(["names", "cond", "cond", "mixed", "mixed", "condlong", "single_cond", "degenerate"])
+        an = rng.choice(PolicyGen.TABLE_ARCHES)
+        pol = pg.policy(archname=an, kind=kind)
+        # the text forms only exist for named actions
+        pol["default"] = rng.choice(list(DOC_ACTIONS.values()))
+        for g in pol["groups"]:
+            g["action"] = rng.choice(list(DOC_ACTIONS.values()))
+        if kind == "degenerate":
+            pol["groups"] = [g for g in pol["groups"] if g["names"] or g["nwc"]] or [dict(action=DOC_ACTIONS["allow"], names=["read"], nwc=[])]
+        le = rng.randint(0, 1)
+        cid = "c%d" % i
+        toks = PolicyGen.tokens(pol)
+        pols[cid] = (pol, le, an)
+        plines.append("P %s %d %s %s" % (cid, le, an, toks))
+        mlines.append("M %s %d %s %s" % (cid, le, an, toks))
+        ylines.append("Y %s %d %s x%s" % (cid, le, an, yaml_of_policy(pol, rng).encode().hex()))
+    if replay and replay.get("case"):
+        plines = [replay["case"]]
+        cid = replay["case"].split()[1]
+        mlines = ["M" + replay["case"][1:]]
+        ylines = [replay["yaml_line"]] if replay.get("yaml_line") else []
+    r1 = ctx.run_harness(["compile"], "\n".join(plines) + "\n")
+    mem = {}
+    for ln in r1.stdout.splitlines():
+        if ln.startswith("P "):
+            mem[ln.split()[1]] = ln.split(" | ", 1)[1]
+    r2 = ctx.run_harness(["config"], "\n".join(mlines + ylines) + "\n")
+    nconf = 0
+    for ln in r2.stdout.splitlines():
+        f = ln.split(" ", 2)
+        if f[0] == "M":
+            parts = f[2].split(" ## ")
+            m_, y_, j_ = parts[0][4:], parts[1][5:], parts[2][5:]
+            nconf += 2
+            for nm, val in (("yaml", y_), ("json", j_)):
+                if val != m_ and m_.startswith("OK"):
+                    bad("a policy marshalled to %s and read back through the configuration path compiles to a different program" % nm.upper(),
+                        case=[p for p in plines if p.split()[1] == f[1]][0], via=nm, in_memory=m_[:300], read_back=val[:300])
+        elif f[0] == "Y":
+            nconf += 1
+            want = mem.get(f[1])
+            if want is not None and want.startswith("OK") and f[2] != want:
+                yl = [y for y in ylines if y.split()[1] == f[1]][0]
+                bad("a policy written as YAML and loaded through the configuration path compiles to a different program than the equivalent in-memory policy",
+                    case=[p for p in plines if p.split()[1] == f[1]][0], yaml_line=yl, yaml_text=unhex(yl.split()[4]).decode(), in_memory=want[:300], loaded=f[2][:300])
+    evaluations += nconf
+    ctx.coverage.update(dict(
+        evaluations=evaluations, distinct_nontrivial=len(set(s for (s, st_, v) in au if st_ == "OK")) + len(set(s for (s, st_, v) in ou if st_ == "OK")) + len(pols),
+        rule="strings: every documented action/operation name in random letter-case patterns and Unicode look-alikes, near-misses (prefix, suffix, blank, NUL, digits), random strings - offered to Action.Unpack and Operation.Unpack; String/MarshalText of named and unnamed values; all compared with the model evaluated by vm_compute over the regenerated name tables and judged against the documented constants. configuration: generated valid policies (all named actions, eight operations, indices 0..5, boundary 64-bit operands) (i) rendered as YAML text (mixed-case names, decimal/hex operands), (ii) marshalled with yaml.v2, (iii) with encoding/json, each read back through ucfg exactly as cmd/sandbox does, compiled and compared byte-wise with the in-memory policy's program; non-trivial = distinct accepted spellings + distinct policies round-tripped",
+        traces_validated_against_impl=ncorr, config_round_trips=nconf, counterexamples=nbad,
+        input_distribution=dict(strings=len(strings), accepted_actions=sum(1 for x in au if x[1] == "OK"), accepted_operations=sum(1 for x in ou if x[1] == "OK"),
+                                policies=len(pols)),
+        samples=[dict(input=s.decode("utf-8", "replace"), result=st_, value=v) for (s, st_, v) in au[:4]] + [ylines[0][:300] if ylines else ""],
+    ))
+    finish_with_proof_status(ctx, nbad, "C14 theorems over the regenerated name tables and struct tags")
+
+
+# ------------------------------------------------------------------------------------------------ C19
+C19_THEOREMS = ["C19_builds_everywhere", "C19_consts_are_uapi", "C19_enosys_38_where_tables", "C19_named_actions_are_action_names",
+                "C19_same_program_everywhere", "C19_stubs_inert", "C19_stub_file_selection", "C19_no_table_no_filter", "C19_table_targets_resolve"]
+
+UAPI = dict(ActionKillThread=0, ActionKillProcess=0x80000000, ActionTrap=0x30000, ActionErrno=0x50000, ActionTrace=0x7ff00000,
+            ActionLog=0x7ffc0000, ActionAllow=0x7fff0000, ActionUserNotify=0x7fc00000, FilterFlagTSync=1, FilterFlagLog=2,
+            errnoEPERM=1, prSetNoNewPrivs=38, seccompSetModeStrict=0, seccompSetModeFilter=1, x32SyscallMask=0x40000000)
+
+
+def uapi_from_headers():
+    """Re-read the values from the machine's kernel headers when present (the vendored OracleConsts.v came from the same files)."""
+    out = {}
+    names = dict(SECCOMP_RET_KILL_THREAD="ActionKillThread", SECCOMP_RET_KILL_PROCESS="ActionKillProcess", SECCOMP_RET_TRAP="ActionTrap",
+                 SECCOMP_RET_ERRNO="ActionErrno", SECCOMP_RET_TRACE="ActionTrace", SECCOMP_RET_LOG="ActionLog", SECCOMP_RET_ALLOW="ActionAllow",
+                 SECCOMP_RET_USER_NOTIF="ActionUserNotify", SECCOMP_SET_MODE_STRICT="seccompSetModeStrict", SECCOMP_SET_MODE_FILTER="seccompSetModeFilter",
+                 PR_SET_NO_NEW_PRIVS="prSetNoNewPrivs", EPERM="errnoEPERM")
+    for path in ("/usr/include/linux/seccomp.h", "/usr/include/linux/prctl.h", "/usr/include/asm-generic/errno-base.h"):
+        try:
+            text = open(path).read()
+        except OSError:
+            continue
+        for m in re.finditer(r"#define\s+(\w+)\s+(0x[0-9a-fA-F]+|\d+)U?\b", text):
+            if m.group(1) in names:
+                out[names[m.group(1)]] = int(m.group(2), 0)
+        m = re.search(r"#define\s+SECCOMP_FILTER_FLAG_TSYNC\s+\(1UL << (\d+)\)", text)
+        if m:
+            out["FilterFlagTSync"] = 1 << int(m.group(1))
+        m = re.search(r"#define\s+SECCOMP_FILTER_FLAG_LOG\s+\(1UL << (\d+)\)", text)
+        if m:
+            out["FilterFlagLog"] = 1 << int(m.group(1))
+    return out
+
+
+def check_C19(ctx, replay=None):
+    gen, ok = setup(ctx, "C19.v", C19_THEOREMS)
+    if not ok:
+        return
+    nbad = 0
+    q = ctx.tier == "quick"
+
+    def bad(what, **kw):
+        nonlocal nbad
+        nbad += 1
+        if nbad <= 4:
+            p = ctx.violation("counterexample", dict(what=what, **kw), True)
+            rewrite_with_replay_cmd(ctx, p)
+    hdr = uapi_from_headers()
+    for k, v in hdr.items():
+        if UAPI.get(k) != v:
+            ctx.notes.append("kernel header value of %s (%d) differs from the vendored one (%s)" % (k, v, UAPI.get(k)))
+    targets = []
+    if gen:
+        text = open(os.path.join(gen, "GenConsts.v")).read()
+        for m in re.finditer(r'\{\| tc_goos := "(\w+)"%string; tc_goarch := "(\w+)"%string; tc_checks := (true|false);(.*?)tc_funcs := \[(.*?)\];\s*tc_files := \[(.*?)\] \|\}', text, re.S):
+            vals = {k: int(v) for k, v in re.findall(r"tc_(\w+) := (\d+)", m.group(4))}
+            targets.append(dict(goos=m.group(1), goarch=m.group(2), checks=m.group(3) == "true", vals=vals,
+                                funcs=re.findall(r'"(\w+)"', m.group(5)), files=re.findall(r'"([\w.]+)"', m.group(6))))
+    # direct search over every target, against the property text
+    for t in targets:
+        tname = "%s/%s" % (t["goos"], t["goarch"])
+        if not t["checks"]:
+            bad("the package does not type-check for this target", target=tname)
+            continue
+        for k, want in UAPI.items():
+            if t["vals"].get(k) != want:
+                bad("a constant differs from the kernel's UAPI value on this target", target=tname, constant=k, expected=want, actual=t["vals"].get(k))
+        linux = t["goos"] in ("linux", "android")
+        want_enosys = 89 if linux and t["goarch"].startswith("mips") else 38
+        if t["vals"].get("errnoENOSYS") != want_enosys:
+            bad("ENOSYS differs from the kernel's value for this CPU", target=tname, expected=want_enosys, actual=t["vals"].get("errnoENOSYS"))
+        if linux != ("seccomp_linux.go" in t["files"]) or linux == ("seccomp_unsupported.go" in t["files"]):
+            bad("wrong loader file selected for this target", target=tname, files=t["files"])
+    # the stubs: no call expression, Supported false
+    if gen:
+        stext = open(os.path.join(gen, "GenStubs.v")).read()
+        for m in re.finditer(r'\("(\w+)"%string, (\d+), (\d+), "(\w+)"%string\)', stext):
+            if int(m.group(2)) != 0:
+                bad("a non-Linux stub performs calls", function=m.group(1), calls=int(m.group(2)))
+            if m.group(1) == "Supported" and m.group(4) != "false":
+                bad("the non-Linux Supported stub does not report false", returns=m.group(4))
+    # translator cross-check: the running (host) build's constants vs the regenerated record of the host target
+    r = ctx.run_harness(["consts"], "")
+    host = {}
+    for ln in r.stdout.splitlines():
+        f = ln.split()
+        if len(f) == 2 and f[1].isdigit():
+            host[f[0]] = int(f[1])
+    goos = subprocess.run(["go", "env", "GOOS"], capture_output=True, text=True, env=GOENV).stdout.strip()
+    goarch = subprocess.run(["go", "env", "GOARCH"], capture_output=True, text=True, env=GOENV).stdout.strip()
+    ncorr = 0
+    for t in targets:
+        if t["goos"] == goos and t["goarch"] == goarch:
+            for k, v in t["vals"].items():
+                if k in host:
+                    ncorr += 1
+                    if host[k] != v:
+                        p = ctx.violation("correspondence", dict(stream="constants of the running build vs the regenerated record of %s/%s" % (goos, goarch),
+                                                                 constant=k, translator=v, runtime=host[k]), False)
+                        rewrite_with_replay_cmd(ctx, p)
+    # builds: representative targets in the quick tier, every target in the thorough tier
+    reps = [("linux", "amd64"), ("linux", "arm64"), ("linux", "mips"), ("darwin", "arm64"), ("windows", "amd64"), ("linux", "riscv64")]
+    todo = reps if q else [(t["goos"], t["goarch"]) for t in targets]
+    built = 0
+    import concurrent.futures
+
+    def build_one(ga):
+        env = dict(GOENV, GOOS=ga[0], GOARCH=ga[1], CGO_ENABLED="0")
+        r1 = subprocess.run(["go", "build", "./..."], cwd=REPO, env=env, capture_output=True, text=True, timeout=900)
+        r2 = subprocess.run(["go", "vet", "."], cwd=REPO, env=env, capture_output=True, text=True, timeout=900) if not q else None
+        return ga, r1.returncode, (r1.stderr[-600:] + (r2.stderr[-600:] if r2 is not None and r2.returncode != 0 else "")), (r2.returncode if r2 is not None else 0)
+    with concurrent.futures.ThreadPoolExecutor(max_workers=8) as ex:
+        for ga, rc, err, rc2 in ex.map(build_one, todo):
+            built += 1
+            if rc != 0 or rc2 != 0:
+                bad("the module does not build (or vet) for this target", target="%s/%s" % ga, log=err)
+    ctx.coverage.update(dict(
+        evaluations=len(targets) * (len(UAPI) + 3) + built, distinct_nontrivial=len(targets),
+        rule="every GOOS/GOARCH pair of `go tool dist list` (%d): package seccomp type-checked under that build context by the translator, its constants as go/constant evaluates them compared with the kernel UAPI values (vendored, and re-read from /usr/include when present), loader file selection and stub bodies inspected; go build for %s; the running build's constants compared with the regenerated host record; non-trivial = targets judged" % (len(targets), "six representative targets" if q else "every target (plus go vet)"),
+        traces_validated_against_impl=ncorr, targets_built=built, counterexamples=nbad, exhaustive=True,
+        input_distribution=dict(targets=len(targets), linux=sum(1 for t in targets if t["goos"] in ("linux", "android")),
+                                with_tables=sum(1 for t in targets if t["goarch"] in ("386", "amd64", "arm", "arm64")),
+                                enosys_values=sorted(set(t["vals"].get("errnoENOSYS") for t in targets))),
+        samples=[dict(target="%s/%s" % (t["goos"], t["goarch"]), ENOSYS=t["vals"].get("errnoENOSYS"), files=t["files"]) for t in targets[:3]],
+    ))
+    finish_with_proof_status(ctx, nbad, "C19 theorems over the regenerated per-target constants and stubs")
+
+
+# ------------------------------------------------------------------------------------------------ C13
+C13_THEOREMS = ["C13_invert_order_independent", "C13_unpack_order_independent", "C13_label_sweep_order_independent", "C13_flag_strings",
+                "C13_cached_arch_same_program"]
+
+
+def check_C13(ctx, replay=None):
+    rng = random.Random(ctx.seed * 1000003 + 13)
+    gen, ok = setup(ctx, "C13.v", C13_THEOREMS)
+    if not ok:
+        return
+    nbad = 0
+    q = ctx.tier == "quick"
+
+    def bad(what, **kw):
+        nonlocal nbad
+        nbad += 1
+        if nbad <= 4:
+            p = ctx.violation("counterexample", dict(what=what, **kw), True)
+            rewrite_with_replay_cmd(ctx, p)
+    race, err = ctx.build_harness(race=True)
+    if not race:
+        ctx.violation("broken-obligation", dict(what="the harness does not build with -race", log=err[-2000:]), False)
+        return
+    st = Stream(ctx)
+    consts, arches_tbl = st.load_header()
+    pg = PolicyGen(rng, consts, arches_tbl)
+    lines = []
+    npol = 150 if q else 2500
+    for i in range(npol):
+        kind = rng.choice(["names", "cond", "mixed", "mixed", "mixed_long", "condlong", "names_long", "degenerate"])
+        an = rng.choice(PolicyGen.TABLE_ARCHES + ["X32"])
+        defect = rng.choice(PolicyGen.DEFECTS) if rng.random() < 0.1 else None
+        pol = pg.policy(archname=an, kind=kind, defect=defect)
+        lines.append("P d%d %d %s %s" % (i, rng.randint(0, 1), an, PolicyGen.tokens(pol)))
+    if replay and replay.get("case"):
+        lines = [replay["case"]]
+    inp = "\n".join(lines) + "\n"
+    runs = []
+    env = dict(GOENV, GORACE="halt_on_error=0 exitcode=66")
+    r = ctx.run_harness(["determ"], inp, harness=race, env=env, timeout=1800)
+    races = r.stderr.count("WARNING: DATA RACE")
+    if races or r.returncode == 66:
+        bad("the race detector reported a data race during concurrent compilations / text conversions", reports=races, report=r.stderr[:3000], case=lines[0])
+    elif r.returncode != 0:
+        raise RuntimeError("determ (race build) failed: " + r.stderr[-1500:])
+    runs.append(r.stdout)
+    nproc = 2 if q else 6
+    for _ in range(nproc):
+        r2 = ctx.run_harness(["determ"], inp)
+        runs.append(r2.stdout)
+    first = [ln.split() for ln in runs[0].splitlines() if ln.startswith("D ")]
+    byid = {f[1]: f for f in first}
+    line_of = {ln.split()[1]: ln for ln in lines}
+    for f in first:
+        if f[2] != "same":
+            bad("repeated or concurrent compilations of equal policies gave different results (or a text form changed)", case=line_of.get(f[1]))
+        if f[3] != "intact":
+            bad("compiling modified the caller's policy", case=line_of.get(f[1]))
+    for k, out in enumerate(runs[1:]):
+        for ln in out.splitlines():
+            f = ln.split()
+            if f and f[0] == "D" and f[1] in byid and (f[4] != byid[f[1]][4] or f[5] != byid[f[1]][5]):
+                bad("a different process compiled the same policy to a different program (or printed a value differently)", case=line_of.get(f[1]),
+                    first=byid[f[1]][4:], other=f[4:])
+    # the text forms of all flag values in fresh processes
+    texts = set()
+    for _ in range(4 if q else 20):
+        rt = ctx.run_harness(["text"], "\n".join("FS %d" % v for v in range(8)) + "\n")
+        texts.add(rt.stdout)
+    if len(texts) != 1:
+        bad("FilterFlag.String is not a function of the value (differs between processes)", distinct=len(texts), outputs=sorted(texts)[:2])
+    ctx.coverage.update(dict(
+        evaluations=len(first) * (3 + 16) * (1 + nproc), distinct_nontrivial=len(set(f[4] for f in first)),
+        rule="generated policies of every kind (incl. 10%% defective, x32): each compiled 3 times on the same value and from 16 goroutines on by-value copies sharing its slices, concurrently with architecture lookups and action/flag text conversions, in a harness built with -race; the policy deep-compared with a fresh parse afterwards; the same stream compiled in %d further processes and compared by program hash; FilterFlag.String of 0..7 across fresh processes; non-trivial = distinct programs compared" % nproc,
+        processes=1 + nproc, race_reports=races, counterexamples=nbad,
+        input_distribution=dict(policies=len(first), accepted=sum(1 for f in first if True)),
+        samples=[lines[0][:300]],
+    ))
+    finish_with_proof_status(ctx, nbad, "C13 theorems (map-order independence over the regenerated tables)")
+
+
+CHECKS.update({"C14": check_C14, "C19": check_C19, "C13": check_C13})
